@@ -39,7 +39,8 @@ def shape_signature(case):
                     if "sec" in ln:
                         tl = tl[:k]
                         break
-                last = [ln for ln in tl if "raw" not in ln][-1]
+                last = [ln for ln in tl
+                        if "raw" not in ln and "d" not in ln][-1]
                 pend = "label" if "l" in last else (
                     "bytes" if last.get("k") == "bytes" else
                     vocab.VOCAB[isa][last["k"]]["kind"])
